@@ -470,7 +470,10 @@ pub mod elliptic_curve {
                 forall|p: Self::Pt, s: Self::Sc| #[trigger] <Self::Pt as MulSpec<Self::Sc>>::mul_req(p, s),
                 forall|p: Self::Pt, s: Self::Sc| #[trigger] <Self::Pt as MulSpec<Self::Sc>>::mul_spec(p, s) == Self::smul(p, s),
                 forall|s: Self::Sc, r: GenericArray<u8, Self::FieldLen>| #[trigger] call_ensures(<Self::Sc as core::convert::Into<GenericArray<u8, Self::FieldLen>>>::into, (s,), r) ==> r@ == Self::sc_bytes(s);
-        /// [assumed] lengths: compressed SEC1 = CompressedPointSize, scalars = FieldBytesSize, both 1..=255
+        /// [assumed] lengths: compressed SEC1 = CompressedPointSize, scalars = FieldBytesSize, both 1..=255.
+        /// CAVEAT (listed in the evidence): stated for every point, but SEC1 encodes the identity in ONE byte; values of type `Pk` are never the
+        /// identity by construction (deserialize_pk refuses it, public_key / diffie_hellman of non-zero scalars and non-identity points in a
+        /// prime-order group) - the KeGroup trait contract has no validity predicate on `Pk` to say so.
         proof fn lemma_lens(p: Self::Pt, s: Self::Sc)
             ensures
                 p.sec1(true).len() == <Self::FieldLen as ModulusSize>::CompressedPointSize::n(),
